@@ -99,22 +99,113 @@ def check_analytic(rep, prog, m):
     # cached_dbeta
     cd = prog.func(SM, 'cached_dbeta')
     rep.saw_function(rel + ':cached_dbeta')
-    # row d of the two tables, whichever loop(s) fill them: summaries of the filling loops; the pair stored in the memo resolves to
-    # (table with shift 1, table with shift 2)
-    from sa.extract import loop_fills
-    fills = loop_fills(cd)
-    sing0 = single_assignments(cd)
-    ok = False
-    stores = [n for n in own_nodes(cd) if isinstance(n, ast.Assign) and isinstance(n.targets[0], ast.Subscript) and ast.unparse(n.targets[0].value) == '_dbeta_cache']
-    if len(stores) == 1:
-        pair = stores[0].value
-        for _ in range(3):
-            if isinstance(pair, ast.Name) and pair.id in sing0:
-                pair = sing0[pair.id]
-        if isinstance(pair, ast.Tuple) and len(pair.elts) == 2 and all(isinstance(x, ast.Name) for x in pair.elts):
-            want = [[('0', 'nx + 1', 'betainc(_i + %d, nx - _i + 1, xx)[1:] - betainc(_i + %d, nx - _i + 1, xx)[:-1]' % (k, k))] for k in (1, 2)]
-            ok = [fills.get(x.id) for x in pair.elts] == want
-    rep.ob('R-ALG', 'cached_dbeta', ok, 'dbeta1[d] = Delta I(d+1, n-d+1), dbeta2[d] = Delta I(d+2, n-d+1) for d = 0..n', rel, cd.lineno, what='incomplete-beta differences with the arguments of the closed-form integrals')
+    # row d of the two tables, as a value (abstract execution): filled row by row in a loop over d, or all rows at once from a broadcast
+    # betainc call whose orders are the column numpy.arange(n+1)[:, newaxis]
+    from sa import miniexec as mx
+    from sa import alpha as _alpha
+    known_ = _alpha.load_table().get('__params__', {}).get(rel)
+    known_ = set(known_) if known_ is not None else None
+
+    def is_row_index(x):
+        """numpy.arange(n + 1, ...)[:, newaxis]: the column of row numbers"""
+        if isinstance(x, mx.Sym) and x.struct and x.struct[0] == 'index' and isinstance(x.struct[2], tuple) and len(x.struct[2]) == 2 and mx.is_full_slice(x.struct[2][0]) and mx.is_newaxis(x.struct[2][1]):
+            return mx.call_of(x.struct[1], 'arange') is not None
+        return False
+
+    CLAMP = 'numpy.minimum(numpy.maximum(xx, 0), 1.0)'
+
+    def beta_leaf(n_name, grid_text):
+        def leaf(x):
+            if isinstance(x, mx.Sym) and not x.struct and re.fullmatch(r'[A-Za-z_]\w*', x.text):
+                return Rat.atom(x.text)
+            if isinstance(x, mx.Sym) and mx.show(x).replace('np.', 'numpy.') == CLAMP:
+                return Rat.atom('xx')          # the grid clamped to [0, 1] (a separate obligation)
+            if x == 'ROW':
+                return Rat.atom('d')
+            b_ = mx.call_of(x, 'betainc')
+            if b_ is not None and len(b_[0]) == 3 and not b_[1]:
+                return Rat.atom('BI[%s|%s|%s]' % (mx.to_rat(b_[0][0], leaf).canon(), mx.to_rat(b_[0][1], leaf).canon(), mx.show(b_[0][2]).replace('np.', 'numpy.').replace(CLAMP, 'xx')))
+            if isinstance(x, mx.Sym) and x.struct and x.struct[0] == 'index' and isinstance(x.struct[2], slice):
+                k_ = x.struct[2]
+                inner = mx.to_rat(x.struct[1], leaf)
+                if (k_.start, k_.stop, k_.step) == (1, None, None):
+                    return Rat.atom('HI[%s]' % inner.canon())
+                if (k_.start, k_.stop, k_.step) == (None, -1, None):
+                    return Rat.atom('LO[%s]' % inner.canon())
+            if isinstance(x, mx.Sym) and x.struct and x.struct[0] == 'index' and not isinstance(x.struct[2], (slice, tuple)):
+                # row number <key> of a table built from the column of row numbers
+                holder = [False]
+
+                def hit(y):
+                    if is_row_index(y):
+                        holder[0] = True
+                        return True
+                    return False
+                rows = mx.replace(x.struct[1], hit, x.struct[2])
+                if holder[0]:
+                    return mx.to_rat(rows, leaf)
+            d_ = mx.call_of(x, 'diff')
+            if d_ is not None and len(d_[0]) == 1 and (not d_[1] or (set(d_[1]) == {'axis'} and d_[1]['axis'] in (-1, 0, 1))):
+                inner = mx.to_rat(d_[0][0], leaf)
+                return Rat.atom('HI[%s]' % inner.canon()) - Rat.atom('LO[%s]' % inner.canon())
+            return None
+        return leaf
+
+    def row_of(table_value_events, table, dvar='d'):
+        """Rat of row d of `table` from the stores into it, or raises"""
+        leaf = beta_leaf(None, None)
+        st = [e for e in table_value_events if e[0] == 'setitem' and e[4] is table]
+        if len(st) != 1:
+            raise mx.Undecidable('%d stores into a table' % len(st))
+        key, val = st[0][2], st[0][3]
+        if mx.is_full_slice(key) or (isinstance(key, tuple) and all(mx.is_full_slice(k_) for k_ in key)):
+            rows = mx.replace(val, is_row_index, 'ROW')
+            return mx.to_rat(rows, leaf), None
+        if isinstance(key, mx.Sym) and not key.struct:
+            return mx.to_rat(mx.subst(val, key.text, 'ROW'), leaf), key.text
+        raise mx.Undecidable('store key %s' % mx.show(key)[:30])
+    ok, detd = False, ''
+    try:
+        it = mx.Interp(prog, m, known_functions=known_, symbolic_loops=True)
+        paths = [p_ for p_ in it.run(cd, {'nx': mx.Sym('nx'), 'xx': mx.Sym('xx')}) if p_[0][0] == 'return']
+        filled = [p_ for p_ in paths if any(e[0] == 'setitem' and mx.show(e[4]) == '_dbeta_cache' for e in p_[1])]
+        if not filled:
+            raise mx.Undecidable('no path fills the cache')
+        ok = True
+        for outcome, events, _d in filled:
+            ret = [e[3] for e in events if e[0] == 'setitem' and mx.show(e[4]) == '_dbeta_cache'][0]      # the pair stored under the key
+            if not (isinstance(ret, tuple) and len(ret) == 2):
+                raise mx.Undecidable('stores %s' % mx.show(ret)[:40])
+            rt_ = [mx.show(x) for x in (outcome[1] if isinstance(outcome[1], tuple) else ())]
+            if not (len(rt_) == 2 and all(t_.startswith('_dbeta_cache[') and t_.endswith('][%d]' % k_) for k_, t_ in enumerate(rt_)) and rt_[0][:-3] == rt_[1][:-3]):
+                ok = False
+                detd = 'returns %s' % mx.show(outcome[1])[:60]
+            grid = 'xx'
+            for k_, tab in enumerate(ret, start=1):
+                got, var = row_of(events, tab)
+                want = Rat.atom('HI[BI[%s|%s|%s]]' % ((Rat.atom('d') + Rat.const(k_)).canon(), (Rat.atom('nx') - Rat.atom('d') + Rat.const(1)).canon(), grid)) - \
+                    Rat.atom('LO[BI[%s|%s|%s]]' % ((Rat.atom('d') + Rat.const(k_)).canon(), (Rat.atom('nx') - Rat.atom('d') + Rat.const(1)).canon(), grid))
+                if not got.equals(want):
+                    ok = False
+                    detd = 'row d of table %d is %s' % (k_, got.canon()[:120])
+                if var is not None:
+                    rg = next((e[3] for e in events if e[0] == 'loop' and e[2] == var and len(e) > 3), None)
+                    c_ = mx.call_of(rg, 'range') if rg is not None else None
+                    hi_ = c_[0][-1] if c_ else None
+                    lo_ = c_[0][0] if c_ and len(c_[0]) == 2 else 0
+                    if c_ is None or lo_ != 0 or mx.show(hi_) not in ('(nx + 1)', 'nx + 1'):
+                        ok = False
+                        detd = 'rows filled for %s' % (mx.show(rg)[:40] if rg is not None else '?')
+                else:
+                    z_ = mx.call_of(tab, 'empty') or mx.call_of(tab, 'zeros')
+                    rows_n = z_[0][0][0] if z_ and z_[0] and isinstance(z_[0][0], (tuple, list)) else None
+                    ar = [x for x in [mx.call_of(e[3], 'diff') for e in events if e[0] == 'setitem' and e[4] is tab] if x]
+                    if rows_n is None or mx.show(rows_n) not in ('(nx + 1)', 'nx + 1'):
+                        ok = False
+                        detd = 'table of %s rows' % mx.show(rows_n)
+    except (mx.Undecidable, AlgebraError) as e:
+        ok, detd = False, 'cached_dbeta is not recognised: %s' % e
+    rep.ob('R-ALG', 'cached_dbeta', ok, detd or 'dbeta1[d] = Delta I(d+1, n-d+1), dbeta2[d] = Delta I(d+2, n-d+1) for d = 0..n', rel, cd.lineno, what='incomplete-beta differences with the arguments of the closed-form integrals')
     clamp = [n for n in own_nodes(cd) if isinstance(n, ast.Assign) and ast.unparse(n.targets[0]) == 'xx']
     rep.ob('R-TPL', 'cached_dbeta clamp', bool(clamp) and ast.unparse(clamp[0].value) == 'numpy.minimum(numpy.maximum(xx, 0), 1.0)', 'grid clamped to [0,1] before betainc', rel, cd.lineno, what='grid clamp present')
     c20.rule_key_full(rep, prog, SM, 'cached_dbeta', '_dbeta_cache')
@@ -122,24 +213,42 @@ def check_analytic(rep, prog, m):
     f1 = prog.func(SM, 'Spectrum._from_phi_1D_analytic')
     rep.saw_function(rel + ':' + f1._qualname)
     check_slope_const(rep, m, f1, '_from_phi_1D_analytic', 'phi', 'xx', 'n', 's', 'c1')
-    lp = [n for n in f1.body if isinstance(n, ast.For)]
-    ok = False
-    det = ''
-    if lp:
-        d = lp[0].target.id
-        b = {ast.unparse(s.targets[0]): s.value for s in lp[0].body if isinstance(s, ast.Assign)}
-        try:
-            okc2 = Translator().tr(b['c2']).equals(parse_expr('s*(%s + 1)/((n + 1)*(n + 2))' % d))
-            okb = ast.unparse(b['beta1']) == 'betainc(%s + 1, n - %s + 1, xx)' % (d, d) and ast.unparse(b['beta2']) == 'betainc(%s + 2, n - %s + 1, xx)' % (d, d)
-            T = off_translator()
-            ent = T.tr(b['entries'])
-            oke = ent.equals(at('c1*(beta1@1 - beta1@0) + c2*(beta2@1 - beta2@0)'))
-            okd = ast.unparse(b['data[%s]' % d]) in ('numpy.sum(entries)', 'entries.sum()') and ast.unparse(lp[0].iter) in ('range(0, n + 1)', 'range(n + 1)')
-            ok = okc2 and okb and oke and okd
-            det = 'c2: %s, beta args: %s, entries: %s, sum: %s' % (okc2, okb, oke, okd)
-        except (KeyError, AlgebraError) as e:
-            det = 'unrecognised loop body (%s)' % e
-    rep.ob('R-ALG', '_from_phi_1D_analytic entries', ok, det, rel, lp[0].lineno if lp else f1.lineno,
+    ok, det = False, ''
+    try:
+        it = mx.Interp(prog, m, known_functions=known_, symbolic_loops=True)
+        pp1 = positional_params(f1)
+        args1 = {p_: mx.Sym(p_) for p_ in pp1}
+        args1['divergent'] = False
+        paths = [p_ for p_ in it.run(f1, args1) if p_[0][0] == 'return']
+        if len(paths) != 1:
+            raise mx.Undecidable('%d returning paths' % len(paths))
+        outcome, events, _d = paths[0]
+        zc = [e for e in events if e[0] == 'setitem' and mx.call_of(e[4], 'zeros') is not None]
+        if len(zc) != 1 or not (isinstance(zc[0][2], mx.Sym) and not zc[0][2].struct):
+            raise mx.Undecidable('%d stores into the result' % len(zc))
+        dv = zc[0][2].text
+        sm = mx.call_of(zc[0][3], 'sum')
+        if sm is None or len(sm[0]) != 1 or sm[1]:
+            raise mx.Undecidable('entry %s' % mx.show(zc[0][3])[:50])
+        leaf1 = beta_leaf(None, None)
+        got = mx.to_rat(sm[0][0], leaf1)
+        D, N = Rat.atom(dv), Rat.atom('n')
+        one = Rat.const(1)
+        S = (Rat.atom('HI[phi]') - Rat.atom('LO[phi]')) / (Rat.atom('HI[xx]') - Rat.atom('LO[xx]'))
+        C1 = (Rat.atom('LO[phi]') - S * Rat.atom('LO[xx]')) / (N + one)
+
+        def dbi(k_):
+            a_ = 'BI[%s|%s|xx]' % ((D + Rat.const(k_)).canon(), (N - D + one).canon())
+            return Rat.atom('HI[%s]' % a_) - Rat.atom('LO[%s]' % a_)
+        ref = C1 * dbi(1) + S * (D + one) / ((N + one) * (N + Rat.const(2))) * dbi(2)
+        rg = next((e[3] for e in events if e[0] == 'loop' and e[2] == dv and len(e) > 3), None)
+        c_ = mx.call_of(rg, 'range') if rg is not None else None
+        okrange = c_ is not None and (c_[0][0] if len(c_[0]) == 2 else 0) == 0 and mx.show(c_[0][-1]) in ('(n + 1)', 'n + 1')
+        ok = got.equals(ref) and okrange
+        det = 'entry d = sum over intervals of c1*DeltaI(d+1, n-d+1) + s*(d+1)/((n+1)(n+2))*DeltaI(d+2, n-d+1), d in range(0, n+1): %s' % ('yes' if ok else got.canon()[:140])
+    except (mx.Undecidable, AlgebraError) as e:
+        det = 'unrecognised loop body (%s)' % e
+    rep.ob('R-ALG', '_from_phi_1D_analytic entries', ok, det, rel, f1.lineno,
            what='entry d = sum_i c1_i DeltaI(d+1,n-d+1) + s_i (d+1)/((n+1)(n+2)) DeltaI(d+2,n-d+1)')
     # 2-D linalg
     f2 = prog.func(SM, 'Spectrum._from_phi_2D_linalg')
